@@ -151,6 +151,15 @@ def regenerate_guards(pid):
         sold = st_.read_text() if st_.exists() else ""
         if stext != sold: st_.write_text(stext)
         info["record_splitters"] = {"module": "LK.Gen.SplitC05", "obligations": "LK/Proofs/SplitC05.lean", "function": "splitting/records.py: _make_pair, crossfold_records, _disjoint_samples", "changed_since_last_run": stext != sold}
+    if pid in ("C14", "C02"):
+        # the builder's edit operations (translate/py2lean_build.py)
+        import py2lean_build
+        bt = LEAN_DIR / "LK" / "Generated" / f"Build{pid}.lean"
+        try: btext = py2lean_build.translate(os.path.dirname(lenskit.__file__), pid)
+        except py2lean_build.Unsupported as e: return "untranslatable", f"builder edit operations: {e}", info
+        bold = bt.read_text() if bt.exists() else ""
+        if btext != bold: bt.write_text(btext)
+        info["builder_edits"] = {"module": f"LK.Gen.Build{pid}", "obligations": f"LK/Proofs/Build{pid}.lean", "function": "pipeline/builder.py:PipelineBuilder.connect / clear_inputs / replace_component", "changed_since_last_run": btext != bold}
     if pid == "C09":
         # the similarity row of the item-item model (translate/py2lean_sim.py)
         import py2lean_sim
@@ -292,7 +301,7 @@ def main():
         if status in ("untranslatable", "obligation-broken"):
             sys.exit(search_chunking(a.pid, f"{status}: {msg}"))
         if status == "build-error":
-            if ginfo is not None and any(f"{k}{a.pid}" in msg for k in ("Guards", "Wiring", "Scatter", "Np", "Imp", "Holdout", "Arrow", "Cand", "SaveTrace", "BatchTrace", "Neg", "Als", "Agg", "Rank", "RowPtrs", "Sim", "Split", "Coll")):
+            if ginfo is not None and any(f"{k}{a.pid}" in msg for k in ("Guards", "Wiring", "Scatter", "Np", "Imp", "Holdout", "Arrow", "Cand", "SaveTrace", "BatchTrace", "Neg", "Als", "Agg", "Rank", "RowPtrs", "Sim", "Split", "Coll", "Build")):
                 sys.exit(obligation_broken(a.pid, "obligation-broken: " + msg.replace("\n", " | ")[:900], mod, a.tier, seed, a.replay, ginfo))
             print(f"machinery error: lake build failed\n{msg}", file=sys.stderr); sys.exit(2)
     else:
@@ -300,7 +309,7 @@ def main():
         r = subprocess.run(["lake", "build", f"LK.Props.{a.pid}", "lkdriver"], cwd=LEAN_DIR, capture_output=True, text=True, timeout=1800)
         if r.returncode != 0:
             bad = [l for l in (r.stdout + r.stderr).splitlines() if "error" in l][:8]
-            if ginfo is not None and any(any(f"{k}{a.pid}" in l for k in ("Guards", "Wiring", "Scatter", "Np", "Imp", "Holdout", "Arrow", "Cand", "SaveTrace", "BatchTrace", "Neg", "Als", "Agg", "Rank", "RowPtrs", "Sim", "Split", "Coll")) for l in bad):
+            if ginfo is not None and any(any(f"{k}{a.pid}" in l for k in ("Guards", "Wiring", "Scatter", "Np", "Imp", "Holdout", "Arrow", "Cand", "SaveTrace", "BatchTrace", "Neg", "Als", "Agg", "Rank", "RowPtrs", "Sim", "Split", "Coll", "Build")) for l in bad):
                 sys.exit(obligation_broken(a.pid, "obligation-broken: " + " | ".join(bad)[:900], mod, a.tier, seed, a.replay, ginfo))
             print("machinery error: lake build failed\n" + "\n".join(bad[:6]), file=sys.stderr); sys.exit(2)
     try:
